@@ -13,6 +13,7 @@ import json
 import random
 
 from .. import core, par
+from .. import compile_tie
 from ..flows import (canon_flow, compile_flow_sheet, compile_index, document_checks, rows_to_csv)
 from ..gen import sheets as G
 from ..gen import sugar as S
@@ -98,6 +99,7 @@ def worker(args):
     stats = {}
     bad = []
     keys = []
+    ties = []
     sample = None
 
     def bump(k, v=1):
@@ -127,9 +129,15 @@ def worker(args):
             key = json.dumps(sheets, sort_keys=True)
             given = set()
         else:
-            res = compile_flow_sheet(G.HEADERS, rows)
+            # T2: the real parser is traced and the Lean compiler model (Rpft/Compile.lean) is run on
+            # the same event sequence; outputs must be equal up to invented identifiers
+            res, events = compile_tie.trace_compile(G.HEADERS, rows)
             key = rows_to_csv(G.HEADERS, rows)
             given = given_ids_of(rows)
+            verdict, detail = compile_tie.compare(drv, res, events, given)
+            bump("model_tie." + verdict)
+            if verdict == "disagree":
+                ties.append({"csv": key, "detail": detail})
         if not res.ok:
             bump("rejected_by_compiler." + kind)
             continue
@@ -142,7 +150,8 @@ def worker(args):
         problems = check_doc(drv, res.doc, given, kind)
         if problems:
             bad.append({"kind": kind, "rows": rows, "sheets": sheets, "problems": problems[:6]})
-    return {"stats": stats, "bad": bad[:10], "nbad": len(bad), "keys": keys, "sample": sample}
+    ties.sort(key=lambda t: len(t["csv"]))
+    return {"stats": stats, "bad": bad[:10], "nbad": len(bad), "keys": keys, "sample": sample, "ties": ties[:5], "nties": len(ties)}
 
 
 def shrink_rows(drv, rows):
@@ -197,7 +206,8 @@ def run(ck: core.Check):
         "compiled by the real compiler; a case = one workbook that compiles without error; distinct = distinct text"
     )
     ck.assumptions = ["'compiles without reporting an error' = no exception and no log record ≥ ERROR in library mode"]
-    ck.partial_gap = ["compile_closed (all sheets) is not proved on a Lean compiler model yet; closure is decided per explored output by the verified procedure"]
+    ck.partial_gap = ["compile_closed (closure of the Lean compiler model's output for ALL event sequences) is not proved; closure is decided per explored output by the verified procedure, and the compiler model is tied to the real parser by exact comparison on every generated sheet",
+                      "insert_as_block, UI positions and action content are outside the compiler model (Compile.lean header)"]
     drv = core.Driver()
 
     # known-finding stream
@@ -220,6 +230,9 @@ def run(ck: core.Check):
             ck.case(key, nontrivial=True)
         if r["sample"] and len(ck.samples) < 3:
             ck.samples.append(r["sample"])
+        for t in r["ties"]:
+            ck.tie_break("Lean compiler model and real FlowParser produce different flows", t)
+        ck.count("tie_break", max(0, r["nties"] - len(r["ties"])))
         for b in r["bad"]:
             if b["sheets"] is None:
                 if len(ck.violations) >= 2:
